@@ -331,6 +331,11 @@ func (g *gen) durationLit() string {
 var regexPieces = []string{"a", "b", "x1", "foo", ".", `\.`, `\d+`, `\w*`, "[a-z]", "[^0-9]", "(ab|cd)", "^", "$", `\/`, `\-`, " ", "'", `"`, "ü", ".*", "a{2,3}", "(?i)", "|", `\s`, "[/]", `\$`, "=", ",", `\\x`, `\\\/`}
 
 func (g *gen) regexLit() string {
+	if g.chance("exactRegex", 25) {
+		// shapes the planner rewrites into comparisons (RewriteRegexConditions / matchExactRegex): ^lit$, ^(a|b)$, ^web(1|2)$ -
+		// the rewritten chain of = / != atoms must still print and re-parse as it was planned
+		return rapid.SampledFrom([]string{"/^a$/", "/^(a|b)$/", "/^(a|b|c)$/", "/^web(1|2)$/", "/^(web|db)-1$/", "/^(a|b)(x|y)$/", "/^a|b$/", "/^[ab]$/"}).Draw(g.t, "exactre")
+	}
 	n := rapid.IntRange(1, 5).Draw(g.t, "rn")
 	var sb strings.Builder
 	sb.WriteByte('/')
